@@ -753,6 +753,13 @@ func observe(img image, cfg *wlConfig, values map[string]int) obsT {
 	}
 	var o obsT
 	flushGate.setOpen(true)
+	// The reopened store gets a large memtable: recovery does not depend on MemTableSize, and the
+	// records GC writes back then stay in the newest memtable instead of being rotated and flushed
+	// in the background while the reads run (the versioned lookup, C02-F4, makes the reads depend
+	// on whether a written-back record is still in a memtable).
+	ocfg := *cfg
+	ocfg.MemTable = 1 << 20
+	cfg = &ocfg
 	db, perr := safeOpen(options(dir, cfg))
 	if db == nil {
 		o.note = "open: " + perr
